@@ -295,6 +295,33 @@ func isFunctionName(name string) bool {
 	return true
 }
 
+// Splits a selector at its `::` continuations; a `::` inside a quoted key is part of the key
+func splitContinue(selector string) []string {
+	out := make([]string, 0)
+	var part strings.Builder
+	quoted := false
+	skip := false
+	for i := 0; i < len(selector); i++ {
+		if skip {
+			// the second colon of a continuation
+			skip = false
+			continue
+		}
+		char := selector[i]
+		if char == '\'' {
+			quoted = !quoted
+		}
+		if !quoted && char == ':' && i+1 < len(selector) && selector[i+1] == ':' {
+			out = append(out, part.String())
+			part.Reset()
+			skip = true
+			continue
+		}
+		part.WriteByte(char)
+	}
+	return append(out, part.String())
+}
+
 func ParseSelector(selector string) ([]any, error) {
 	functions := strings.SplitN(selector, "=>", 2)
 	slice := make([]any, 0)
@@ -456,7 +483,7 @@ func CachedSelectors(selector string) ([][]any, error) {
 		return allSelectors, nil
 	}
 	allSelectors := make([][]any, 0)
-	selectors := strings.Split(selector, "::")
+	selectors := splitContinue(selector)
 	for _, item := range selectors {
 		selectors, err := ParseSelector(item)
 		if err != nil {
